@@ -514,6 +514,9 @@ def gen(rng, tier, index):
     d = {"masked_write": rng.random() < 0.5, "extended": rng.random() < 0.4}
     n = rng.choice([2, 5, 12, 30]) if tier == "quick" else rng.choice([5, 20, 60])
     spacing = rng.choice(["legal", "legal", "tight", "overlap"])
+    if d["extended"] and spacing == "legal" and rng.random() < 0.6:
+        spacing = "dense"        # the extended overlap check only matters when commands crowd each other: chains of overlaps
+        n = max(n, 12)
     cmds = []
     t = 16 + rng.randrange(8)
     amode = rng.choice(["rand", "walk1", "ones"])
@@ -539,6 +542,8 @@ def gen(rng, tier, index):
             t += rng.choice([4, 4, 5, 6, 8, 9, 16, 23])
         elif spacing == "tight":
             t += rng.choice([4, 4, 4, 5])
+        elif spacing == "dense":
+            t += rng.choice([1, 1, 2, 2, 3, 3, 4, 6])
         else:
             t += rng.choice([1, 2, 3, 4, 4, 5, 7])
     if rng.random() < 0.35:
